@@ -228,6 +228,7 @@ func genC11(seed uint64, tier string, prop string) Case {
 			}
 		}
 		if len(expired) >= 2 {
+			c.Cfg["burst"] = 1
 			var keep []Op
 			for _, op := range c.Ops {
 				if op.C == -1 {
@@ -246,6 +247,26 @@ func genC11(seed uint64, tier string, prop string) Case {
 				for j := 1 + r.intn(3); j > 0; j-- {
 					c.Ops = append(c.Ops, Op{C: cl, K: "del", A: []int64{0, expired[r.intn(len(expired))]}})
 				}
+			}
+		}
+	}
+	if prop == "C11" && !static && c.Cfg["burst"] == 0 && r.chance(1, 5) {
+		// filter-flip burst: shift-matching claims with a state filter start at the same instant as explicit patches
+		// that move records out of that state, so a flip can fall between a claim's look at the record and its taking it
+		var keep []Op
+		for _, op := range c.Ops {
+			if op.C == -1 {
+				keep = append(keep, op)
+			}
+		}
+		c.Ops = keep
+		fs := int64(r.intn(2)) * 3 // state==idle, or OR(idle, busy)
+		for cl := 0; cl < 1+r.intn(2); cl++ {
+			c.Ops = append(c.Ops, Op{C: cl, K: "shiftmatch", A: []int64{0, []int64{0, 5, 2}[r.intn(3)], int64(r.intn(2)), int64(r.intn(2)), fs, -1, 0, 0, 0, int64(r.intn(2))}})
+		}
+		for cl := 2; cl < 4+r.intn(2); cl++ {
+			for j := 2 + r.intn(3); j > 0; j-- {
+				c.Ops = append(c.Ops, Op{C: cl, K: "setstate", A: []int64{0, 1, 1, 0, int64(r.intn(n)), 0, 0}})
 			}
 		}
 	}
